@@ -9,8 +9,8 @@
 (*           by the design-level run for this string)                      *)
 (*   Heads   first line of each converted builtin source and the line       *)
 (*           counts of the four versions (raw, double, single, quad)       *)
-(*   Begin / Line / End   a piece of a builtin source fed line by line;    *)
-(*           a Line carries the same line of the four versions (r, d, s,   *)
+(*   Begin / Line / End   a piece of a builtin source (n lines) fed line   *)
+(*           by line; Line k carries line k of the four versions (r, d, s, *)
 (*           q).  The lexer states are the carried state, so comments,     *)
 (*           continued directives and spliced lines are followed; End      *)
 (*           demands that the piece stops between tokens, which makes      *)
@@ -40,13 +40,21 @@ ClassAt(T, k) ==
        /\ ~T[k - 1].gap /\ ~T[k].gap
     THEN "type-keyword-one-character-after-type-keyword"
     ELSE TokClass(T[k])
+\* class of a mismatch at expected token d (0: the output has more tokens than expected).  A
+\* line splice inside an identifier or constant anywhere in the text names the class, because
+\* it changes how everything after it on that line is read by a scanner that ignores splices.
+SplicedIn(T) == {k \in 1..Len(T) : T[k].spl /\ T[k].cls \in {"id", "num"}}
+MismatchClass(T, E, d) ==
+    IF SplicedIn(T) # {} THEN "line-splice-inside-identifier-or-constant"
+    ELSE IF d <= Len(E) THEN ClassAt(T, E[d].from)
+    ELSE "extra-tokens"
 
 \* Rewrite: A (tokens read from the output at precision p) against Convert(T, p)
 Rewrite(T, A, p) ==
     LET E == Convert(T, p)
         d == FirstDiff(E, A, 1)
     IN IF d = 0 THEN <<>>
-       ELSE <<"rewrite/" \o (IF d <= Len(E) THEN ClassAt(T, E[d].from) ELSE "extra-tokens"),
+       ELSE <<"rewrite/" \o MismatchClass(T, E, d),
               ToString(<<"prec", p, "token", d,
                          "expected", IF d <= Len(E) THEN E[d].txt ELSE "",
                          "got", IF d <= Len(A) THEN A[d].txt ELSE "">>)>>
@@ -87,24 +95,26 @@ First(vs) == IF \E i \in 1..Len(vs) : vs[i] # <<>>
              ELSE <<>>
 
 \* ------------------------------------------------------------ Conv
+\* [T: tokens of the text, wf: the text is well-formed] with one run of the lexer
+Read(s) == LET F == Finish(LexRun(L0, s)) IN [T |-> F.out, wf |-> F.mode = "code" /\ WFTokens(F.out)]
 ApplyConv(e) ==
     IF e.raised THEN [bad |-> <<"raised", e.error>>, ill |-> FALSE]
     ELSE IF ~(HasPrefix(e.o32, Header(32)) /\ HasPrefix(e.o64, Header(64)) /\ HasPrefix(e.o128, Header(128)))
     THEN [bad |-> <<"float-size", ToString(<<Prefix(e.o32, 22), Prefix(e.o64, 22), Prefix(e.o128, 22)>>)>>,
           ill |-> FALSE]
-    ELSE IF ~WellFormed(e.src) THEN [bad |-> <<>>, ill |-> TRUE]
-    ELSE LET T0 == Lex(e.src)
+    ELSE LET R0 == Read(e.src)
              b64 == Rest(e.o64, Len(Header(64)) + 1)
-             T == Lex(b64)
+             R64 == Read(b64)
              A32 == Lex(Rest(e.o32, Len(Header(32)) + 1))
              A128 == Lex(Rest(e.o128, Len(Header(128)) + 1))
-             dbl == DoubleSource(T0, T, FALSE)
-         IN [bad |-> IF "e32" \in DOMAIN e /\ e.e32 # Text(Convert(T0, 32))
-                     THEN <<"export-differs-from-trace-module", Text(Convert(T0, 32))>>
-                     ELSE IF dbl # <<>> THEN dbl
-                     ELSE IF ~WellFormed(b64) THEN <<"double-source/ill-formed", b64>>
-                     ELSE First(<<Rewrite(T, A32, 32), Rewrite(T, A128, 128)>>),
-             ill |-> FALSE]
+             dbl == DoubleSource(R0.T, R64.T, FALSE)
+         IN IF ~R0.wf THEN [bad |-> <<>>, ill |-> TRUE]
+            ELSE [bad |-> IF "e32" \in DOMAIN e /\ e.e32 # Text(Convert(R0.T, 32))
+                          THEN <<"export-differs-from-trace-module", Text(Convert(R0.T, 32))>>
+                          ELSE IF dbl # <<>> THEN dbl
+                          ELSE IF ~R64.wf THEN <<"double-source/ill-formed", b64>>
+                          ELSE First(<<Rewrite(R64.T, A32, 32), Rewrite(R64.T, A128, 128)>>),
+                  ill |-> FALSE]
 
 \* ------------------------------------------------------------ builtin sources, line by line
 ApplyHeads(e) ==
@@ -126,12 +136,14 @@ ApplyLine(s, e) ==
                ELSE First(<<DoubleSource(r.out, d.out, TRUE), Rewrite(d.out, f.out, 32), Rewrite(d.out, q.out, 128),
                             IF same(r, d) /\ same(f, d) /\ same(q, d) THEN <<>>
                             ELSE <<"lexer-state-diverged", ToString(<<r.mode, d.mode, f.mode, q.mode>>)>>>>)
-    IN [st |-> [s EXCEPT !.r = r, !.d = d, !.s = f, !.q = q], bad |-> bad, ill |-> ill]
+    IN IF e.k # s.next THEN [st |-> s, bad |-> <<"line-order", ToString(<<"expected", s.next, "got", e.k>>)>>, ill |-> FALSE]
+       ELSE [st |-> [s EXCEPT !.r = r, !.d = d, !.s = f, !.q = q, !.next = @ + 1], bad |-> bad, ill |-> ill]
 
 Closed(L) == LET F == Finish(Fresh(L)) IN F.mode = "code" /\ \A i \in 1..Len(F.out) : F.out[i].cls = "eod"
 ApplyEnd(s, e) ==
     [st |-> s, ill |-> FALSE,
-     bad |-> IF Closed(s.r) /\ Closed(s.d) /\ Closed(s.s) /\ Closed(s.q) THEN <<>>
+     bad |-> IF s.next # s.n THEN <<"line-order", ToString(<<"lines", s.n, "seen", s.next>>)>>
+             ELSE IF Closed(s.r) /\ Closed(s.d) /\ Closed(s.s) /\ Closed(s.q) THEN <<>>
              ELSE <<"chunk-not-closed", ToString(<<s.r.mode, s.d.mode, s.s.mode, s.q.mode>>)>>]
 
 \* ------------------------------------------------------------ precision requests
@@ -184,7 +196,8 @@ Apply(s, e) ==
       [] e.ev = "Heads" -> [st |-> s, bad |-> ApplyHeads(e), ill |-> FALSE]
       [] e.ev = "Dtype" -> [st |-> s, bad |-> ApplyDtype(e), ill |-> FALSE]
       [] e.ev = "Agree" -> [st |-> s, bad |-> ApplyAgree(e), ill |-> FALSE]
-      [] e.ev = "Begin" -> [st |-> [tid |-> e.tid, skip |-> FALSE, r |-> L0, d |-> L0, s |-> L0, q |-> L0],
+      [] e.ev = "Begin" -> [st |-> [tid |-> e.tid, skip |-> FALSE, next |-> 0, n |-> e.n,
+                                    r |-> L0, d |-> L0, s |-> L0, q |-> L0],
                             bad |-> <<>>, ill |-> FALSE]
       [] e.ev \in {"Line", "End"} ->
             IF s.skip \/ s.tid # e.tid THEN [st |-> s, bad |-> <<>>, ill |-> FALSE]   \* after a rejection
